@@ -18,6 +18,16 @@ let () =
             (match run_limits_json (unhex h) with
              | None -> "P;;"
              | Some l -> "R " ^ String.concat "," (List.map hex l))
+          | "E" :: spec :: mods :: _ ->
+            (* E c1:m1+m2,c2:m1 m1,m2,m3   (ASCII tokens) *)
+            let bytes_of (t : string) : z list = List.init (String.length t) (fun i -> z_of_int (Char.code t.[i])) in
+            let str_of (l : z list) : string = String.concat "" (List.map (fun b -> String.make 1 (Char.chr (int_of_z b))) l) in
+            let certs = List.map (fun e ->
+                match String.split_on_char ':' e with
+                | [c; ms] -> (bytes_of c, List.map (fun m -> bytes_of (m ^ ".dll")) (String.split_on_char '+' ms))
+                | _ -> failwith "cert") (String.split_on_char ',' spec) in
+            let ms = List.map (fun m -> bytes_of (m ^ ".dll")) (String.split_on_char ',' mods) in
+            "E " ^ String.concat "," (List.map (fun o -> match o with None -> "-" | Some c -> str_of c) (run_certs certs ms))
           | _ -> "?" in
         print_endline out
       end
